@@ -853,6 +853,8 @@ class StmtMixin:
                 outs.append(a)
                 continue
             for o in self.ex_block(a.st, s.body):
+                if o.kind in ("ok", "cnt", "brk", "ret"):
+                    o = Out(o.kind, self.check_steps(o.st, ls, a.st, is_ret=(o.kind == "ret")), o.val)
                 if o.kind in ("ok", "cnt"):
                     nd = seq_concat(done, seq_unit(x))
                     g2 = {"done": VSeq(nd, ek), f"done{ord_}": VSeq(nd, ek), "seq": VSeq(seq_t, ek),
